@@ -43,7 +43,7 @@ def check(run: Run) -> None:
     mod = run.src.need(M)
     for rid, text in [
         ("A1", "every return of approx_equal_quantities is dominated by assert_equivalent_dimension(lhs.., rhs..)"),
-        ("A2", "approx_equal_quantities returns a conjunction of the re- and the im-comparison of both scale factors"),
+        ("A2", "approx_equal_quantities returns a conjunction of the re- and the im-comparison of both operands' SI values"),
         ("A3", "the default relative tolerance is the module constant and folds to 0.001"),
         ("A4", "default abs tolerance = |lhs*rel|; rel and abs reach pytest.approx(rhs, rel=, abs=); verdict is lhs == approx"),
         ("A5", "tolerance and dimension keywords are forwarded unchanged along assert_equal(_vectors) -> approx_equal_quantities -> approx_equal_numbers"),
@@ -104,15 +104,16 @@ def check(run: Run) -> None:
                 p0 = _has_part(f, cn, c.args[0], part)
                 p1 = _has_part(f, cn, c.args[1], part)
                 if p0 and p1 and "lhs" in s0.params and "rhs" not in s0.params and "rhs" in s1.params and "lhs" not in s1.params \
-                        and "scale_factor" in s0.attr_names and "scale_factor" in s1.attr_names \
+                        and _is_si_value(f, cn, c.args[0]) and _is_si_value(f, cn, c.args[1]) \
                         and not _has_part(f, cn, c.args[0], "im" if part == "re" else "re") \
                         and not _has_part(f, cn, c.args[1], "im" if part == "re" else "re"):
                     cover.add(part)
         missing = {"re", "im"} - cover
         if missing:
             run.violate("A2", f"{f.qual}:return:{norm(r.ast, 80)}", f.mod, r.ast,
-                        f"the returned verdict does not imply the comparison of the {'/'.join(sorted(missing))} part(s) of lhs.scale_factor "
-                        f"and rhs.scale_factor", implied_calls=[norm(c, 80) for c in implied])
+                        f"the returned verdict does not imply the comparison of the {'/'.join(sorted(missing))} part(s) of the SI values of lhs and rhs "
+                        f"(convert_to_si; a raw .scale_factor is gram-based for every dimension that contains mass, so an absolute tolerance given in SI "
+                        f"units would be applied in other units)", implied_calls=[norm(c, 80) for c in implied])
     run.sample({"function": f.qual, "returns": [f.line(r) for r in rets], "dimension_check_at": [f.line(n) for n in good_aed]})
 
     # ------------------------------------------------------------------ A3 + A4: approx_equal_numbers
@@ -147,6 +148,7 @@ def check(run: Run) -> None:
     pa = g.calls("pytest.approx")
     run.require(len(pa) >= 1, "approx_equal_numbers no longer calls pytest.approx")
     rets = g.cfg.returns()
+    guarded_inf: list = []
     for r in rets:
         run.ob("A4", f"return@{norm(r.ast, 60)}")
         v = r.ast.value
@@ -163,6 +165,13 @@ def check(run: Run) -> None:
         r_at = vn
         ok = False
         why = "the verdict is not `lhs == approx(rhs, rel=..., abs=...)`"
+        # the exact comparison lhs == rhs is the right verdict where an operand is infinite (no tolerance can be relative to infinity)
+        ve = v.args[0] if isinstance(v, ast.Call) and dotted(v.func) == "bool" and len(v.args) == 1 else v
+        if isinstance(ve, ast.Compare) and len(ve.ops) == 1 and isinstance(ve.ops[0], ast.Eq) and {dotted(ve.left), dotted(ve.comparators[0])} == {"lhs", "rhs"}:
+            conds = [t for t, pol in (conditions_for(g.fn, r.ast) or []) if not isinstance(t, str) and pol]
+            if any(_mentions_infinity(t) and {"lhs", "rhs"} <= {x.id for x in ast.walk(t) if isinstance(x, ast.Name)} for t in conds):
+                guarded_inf.append(r)
+                continue
         if isinstance(v, ast.Compare) and len(v.ops) == 1 and isinstance(v.ops[0], ast.Eq):
             sides = [v.left, v.comparators[0]]
             for a, b in (sides, sides[::-1]):
@@ -178,6 +187,12 @@ def check(run: Run) -> None:
                         ok = why is None
         if not ok:
             run.violate("A4", f"{g.qual}:return:{norm(r.ast, 80)}", g.mod, r.ast, why or "verdict shape")
+    # symmetry at infinity: the default absolute tolerance |lhs * rel| is infinite for an infinite lhs, which would make it equal to everything
+    run.ob("A4", "infinite-operands-compared-exactly")
+    if not guarded_inf:
+        run.violate("A4", f"{g.qual}:infinite-operands", g.mod, g.fn,
+                    "approx_equal_numbers has no exact comparison for infinite operands: with the default absolute tolerance |lhs * rel| an infinite lhs equals every rhs, "
+                    "while the swapped operands fail - the verdict is not symmetric")
     run.sample({"function": g.qual, "approx_calls": [norm(c, 100) for _, c in pa]})
 
     # ------------------------------------------------------------------ A5 forwarding
@@ -263,6 +278,20 @@ def check(run: Run) -> None:
 
 def _ordinal(cs, c) -> int:
     return [x for _, x in cs].index(c)
+
+
+def _mentions_infinity(t: ast.AST) -> bool:
+    return any((isinstance(x, ast.Name) and x.id in ("inf", "oo", "isinf", "Infinity")) or (isinstance(x, ast.Attribute) and x.attr in ("inf", "isinf", "Infinity", "is_infinite"))
+               or (isinstance(x, ast.Constant) and isinstance(x.value, str) and x.value.lstrip("+-") == "inf") for x in ast.walk(t))
+
+
+def _is_si_value(f: Fn, n, expr) -> bool:
+    """the compared number is derived from the operand's SI value: convert_to_si(q) (or convert_to(q, dimension_to_si_unit(...))), not from q.scale_factor"""
+    sl = f.slice(n, expr)
+    names = {(f.callee(node_of(f.cfg, c) or n, c) or "").split(".")[-1] for c in sl.call_nodes}
+    if "convert_to_si" in names or ("convert_to" in names and "dimension_to_si_unit" in names):
+        return "scale_factor" not in sl.attr_names
+    return False
 
 
 def _has_part(f: Fn, n, expr, part: str) -> bool:
